@@ -10,6 +10,7 @@ pub mod c12;
 pub mod c13;
 pub mod c15;
 pub mod c16;
+pub mod c17;
 pub mod c18;
 pub mod c19;
 
@@ -29,6 +30,7 @@ pub fn instances(prop: &str, tier: &str, seed: u64) -> Vec<String> {
         "C13" => c13::instances(tier),
         "C15" => c15::instances(tier),
         "C16" => c16::instances(tier),
+        "C17" => c17::instances(tier),
         "C18" => c18::instances(tier),
         "C19" => c19::instances(tier),
         _ => vec![],
@@ -56,6 +58,7 @@ pub fn body(prop: &str, inst: &str) {
         "C13" => c13::body(inst),
         "C15" => c15::body(inst),
         "C16" => c16::body(inst),
+        "C17" => c17::body(inst),
         "C18" => c18::body(inst),
         "C19" => c19::body(inst),
         _ => panic!("unknown property {}", prop),
